@@ -2,11 +2,15 @@ package db
 
 import (
 	"context"
+	"sync"
 
 	ocr2keepers "github.com/smartcontractkit/chainlink-common/pkg/types/automation"
 )
 
 type UpkeepStateDatabase struct {
+	// every flow of a node (log trigger, retry, recovery) has its own
+	// ineligible post-processor and all of them share this updater
+	mu    sync.Mutex
 	state map[string]ocr2keepers.UpkeepState
 }
 
@@ -17,6 +21,9 @@ func NewUpkeepStateDatabase() *UpkeepStateDatabase {
 }
 
 func (usd *UpkeepStateDatabase) SetUpkeepState(_ context.Context, result ocr2keepers.CheckResult, state ocr2keepers.UpkeepState) error {
+	usd.mu.Lock()
+	defer usd.mu.Unlock()
+
 	usd.state[result.WorkID] = state
 
 	return nil
